@@ -27,6 +27,8 @@ def one_case(args):
     npk = rng.choice([1, 2, 50, 99, 100, 101, 199, 200, 201, 250, rng.randrange(1, 120), rng.randrange(1, 400)])
     if tier == "thorough" and rng.random() < 0.03:
         npk = rng.choice([1000, 5000, 20000])
+    if case == 0:
+        npk = 70000     # scale: one large case per run (> 65 536 packets, several MB of output, hundreds of reader batches and writer flushes)
     sane = rng.random() < 0.5
     pkts = frame.generate(rng, npk, payload=rng.choice(["random", "random", "none"]), max_payload=(None if npk <= 400 else 64), sane_headers=sane)
     kind = rng.choice(["link", "fee", "stave"])
@@ -121,11 +123,58 @@ def one_case(args):
     return out
 
 
+def mega_case(args):
+    """scale: more than 2^20 matching packets (1.2 million RDH-only packets, 77 MB): beyond every buffer threshold of the writer. The input is a block of
+    10 000 generated packets repeated 120 times, so the expected output is the filtered block repeated 120 times."""
+    import hashlib
+    exe, wd, seed, case, tier = args
+    rng = rng_for(seed, 700000 + case)
+    out = dict(case=case, viol=None, events=0, key=None, sample=None, parts=0, idem=0)
+    block = frame.generate(rng, 10000, payload="none", sane_headers=True)
+    sysid = block[0].f["system_id"]
+    for i, q in enumerate(block):
+        q.f["system_id"] = sysid
+        q.f["link_id"] = 1 if i % 16 == 15 else 0
+    bdata = frame.serialize(block)
+    reps = 120
+    want_block = b"".join(bdata[q.offset:q.offset + 64] for q in block if q.f["link_id"] == 0)
+    path = os.path.join(wd, "m%d.raw" % case)
+    with open(path, "wb") as f:
+        for _ in range(reps):
+            f.write(bdata)
+    to_stdout = case % 2 == 1
+    use_stdin = (case // 2) % 2 == 1
+    desc = "mega: %d packets (%d match), filter link 0, %s -> %s" % (10000 * reps, reps * (10000 - 625), "pipe" if use_stdin else "file", "stdout" if to_stdout else "file")
+    out["sample"] = desc
+    out["key"] = ("mega", use_stdin, to_stdout)
+    try:
+        r = obs.run(exe, ([] if use_stdin else [path]) + ["-f", "0"], stdin_path=path if use_stdin else None, workdir=wd, stats="json", out_name=(not to_stdout), tag="m%d" % case, timeout=600)
+    finally:
+        os.unlink(path)
+    got = r.stdout if to_stdout else (r.out_file or b"")
+    out["events"] = reps * (10000 - 625)
+    what = None
+    if r.abnormal():
+        what = "abnormal end: %s" % r.abnormal()
+    elif len(got) != len(want_block) * reps:
+        what = "bytes differ: %d bytes written, expected %d (%d packets missing / extra)" % (len(got), len(want_block) * reps, (len(want_block) * reps - len(got)) // 64)
+    elif hashlib.sha256(got).digest() != hashlib.sha256(want_block * reps).digest():
+        what = "bytes differ: same length, different content"
+    elif r.stats is not None and r.stats["rdh_stats"]["rdhs_filtered"] != reps * (10000 - 625):
+        what = "count: rdhs_filtered=%d, %d packets match" % (r.stats["rdh_stats"]["rdhs_filtered"], reps * (10000 - 625))
+    if what:
+        d = save_replay("C08", "mega%d" % case, {"stderr.txt": r.stderr[-20000:]}, dict(seed=seed, case=case, what=what, desc=desc, note="input regenerated from (seed, case): mega_case"))
+        out["viol"] = ("filter:%s" % what.split(":")[0], "%s: %s" % (desc, what), d)
+    return out
+
+
 def run(res):
     exe = build.fastpasta("rel")
     wd = scratch("c08")
     n = 250 if res.tier == "quick" else 12000
-    for o in pmap(one_case, [(exe, wd, res.seed, c, res.tier) for c in range(n)]):
+    outs = pmap(one_case, [(exe, wd, res.seed, c, res.tier) for c in range(n)])
+    outs += pmap(mega_case, [(exe, wd, res.seed, c + res.seed, res.tier) for c in range(1 if res.tier == "quick" else 4)], workers=2)
+    for o in outs:
         res.evaluations += 1
         res.count("packets_compared", o["events"])
         res.count("partition_cases", o["parts"])
@@ -136,7 +185,7 @@ def run(res):
             res.nontrivial.add(o["key"])
         res.sample(o["sample"])
     res.rule = ("G-frame streams x filter kind x value (present / every value = partition / absent) x {file, pipe} x {file, stdout}; output compared byte for byte "
-                "with the reference filter, re-walked, re-filtered; non-trivial = distinct (filter kind, source, destination, count class, partition?, header class) "
+                "with the reference filter, re-walked, re-filtered; one mega case per run (1.2 million packets, > 2^20 of them matching); non-trivial = distinct (filter kind, source, destination, count class, partition?, header class) "
                 "with >= 1 matching packet")
     res.min_nontrivial = 30 if res.tier == "quick" else 100
     res.assumptions = ["well-framed input, first RDH recognised; re-filtering only when the first matching packet is itself recognisable"]
